@@ -15,8 +15,8 @@
 (* The Exit event also carries `expect`: "accept"/"reject" = the verdict   *)
 (* of Static.tla for the program that was run (C13), "any" otherwise:      *)
 (*   accept => status 0 and no error diagnostic;                           *)
-(*   reject => a check point saw errors (hence status 1, a diagnostic,     *)
-(*             nothing evaluated, no output file).                         *)
+(*   reject => status 1, an error diagnostic, nothing evaluated and no     *)
+(*             output file.                                                *)
 (***************************************************************************)
 EXTENDS Driver, Sequences, TraceDataModule
 VARIABLE l
@@ -42,7 +42,7 @@ TNext == /\ l <= Len(TraceData)
               [] Ev.e = "Stmt"           -> Stmt
               [] Ev.e = "Exit"           -> /\ Ev.signal = 0 /\ ~Ev.timeout /\ ~Ev.internal
                                             /\ (Ev.expect = "accept" => Ev.code = 0 /\ ~Ev.diag)
-                                            /\ (Ev.expect = "reject" => sawErrors /\ ~executed)
+                                            /\ (Ev.expect = "reject" => Ev.code = 1 /\ Ev.diag /\ Ev.outs = 0 /\ ~executed)
                                             /\ Exit(Ev.code, Ev.diag, Ev.outs)
               [] OTHER                   -> FALSE
 TSpec == TInit /\ [][TNext]_tvars
